@@ -5,6 +5,7 @@ from ..model import Func, AnalysisError
 from ..effects import DESTROY, CREATE, USER, UNKNOWN
 from ..supergraph import callee_name
 from .. import queries as Q
+from . import opt
 
 EXPLANATION = (
     'R2.1: every effect that can run before commit is covered by a handler '
@@ -58,9 +59,9 @@ def _effect_leaf(ctx, sn):
 def r2_1(ctx, rc):
     N = _names(ctx)
     root = N['root']
-    sg = ctx.E.super(root, lambda g: False)
     commit = N['commit'].qualname
     rb = N['rollback'].qualname
+    sg = ctx.helpers_graph(root, stop=(commit, rb))
     pre = sg.reach([sg.entry], avoid=lambda x: Q.is_call(x, commit))
     effs = [n for n in sg.nodes if n.id in pre and _effect_leaf(ctx, n)]
     if len(effs) < 3:
@@ -253,7 +254,8 @@ def r2_4(ctx, rc):
         rc.ok({'order': key}, key=key)
     # (c) cache file moved aside (or absent) before the cache write
     root = N['root']
-    sgr = ctx.E.super(root, lambda g: False)
+    sgr = ctx.helpers_graph(root, stop=(N['commit'].qualname,
+                                       N['rollback'].qualname))
     cparam = _cache_param(ctx, root)
 
     def is_cache_name(e):
@@ -370,7 +372,9 @@ def r2_7(ctx, rc):
     the old directories, restore the backups - restoration is last."""
     N = _names(ctx)
     rb = N['rollback']
-    sg = ctx.E.super(rb, lambda g: False)
+    sg = ctx.helpers_graph(rb, stop=(N['remover'].qualname,
+                                     N['dir_remover'].qualname,
+                                     N['create_dirs'].qualname))
     rs = N['restore'].qualname
     for first in (N['remover'].qualname, N['dir_remover'].qualname,
                   N['create_dirs'].qualname):
@@ -517,16 +521,31 @@ def _slice_names(ctx, func, expr, cn, depth=0, seen=None):
 def r2_9(ctx, rc):
     N = _names(ctx)
     root = N['root']
-    sg = ctx.E.super(root, lambda g: False)
+    sg = ctx.helpers_graph(root, stop=(N['commit'].qualname,
+                                      N['rollback'].qualname,
+                                      N['remover'].qualname))
     cparam = _cache_param(ctx, root)
     wq = N['write'].qualname
     rmq = N['remover'].qualname
     rbq = N['rollback'].qualname
     bq = N['backup'].qualname
 
+    def is_cache_arg(x):
+        """The call's first argument is the cache file name (the root's
+        parameter, possibly handed down to a helper)."""
+        if not x.call or not x.call.args:
+            return False
+        a = x.call.args[0]
+        if x.frame.parent is None:
+            return isinstance(a, ast.Name) and a.id == cparam
+        org = ctx.H.origins(a, x.func, x.cn)
+        return bool(org) and all(
+            o[0] in ('param', 'api_param') and o[2] == cparam or
+            (o[0] == 'call' and o[1] == ctx.R.builder + '._sanitize_filename')
+            for o in org)
+
     def removes_cache(x):
-        return Q.is_call(x, rmq) and x.call.args and isinstance(
-            x.call.args[0], ast.Name) and x.call.args[0].id == cparam
+        return Q.is_call(x, rmq) and is_cache_arg(x)
     writes = [x for x in sg.nodes if Q.is_call(x, wq)]
     if not writes:
         raise AnalysisError('cache write not found in ' + root.qualname)
@@ -560,8 +579,7 @@ def r2_9(ctx, rc):
                   key=key)
     # (ii) the remover never deletes an old cache file that is still in place
     def backed(x):
-        return Q.is_done(x, bq) and x.call.args and isinstance(
-            x.call.args[0], ast.Name) and x.call.args[0].id == cparam
+        return Q.is_done(x, bq) and is_cache_arg(x)
 
     def edge_ok(a, b, lab):
         return not _isfile_of(
@@ -602,7 +620,12 @@ def r2_10(ctx, rc):
     N = _names(ctx)
     R = ctx.R
     bf = N['build_file']
-    sgb = ctx.E.super(bf, lambda g: False)
+    sgb = ctx.helpers_graph(bf, stop=(
+        ctx.R.builder + opt('._try_to_reuse_cached_file'),
+        ctx.R.builder + opt('._rebuild_file'),
+        ctx.R.builder + opt('._prepare_file_creation'),
+        ctx.R.builder + opt('._assert_build_file_call_valid'),
+        ctx.R.builder + opt('._ensure_dirs_case')))
     bq = N['backup'].qualname
     bsites = [x for x in sgb.nodes if Q.is_call(x, bq) and x.call.args and
               _own_filename(ctx.H.subst(x.call.args[0], x.func, x.cn))]
@@ -620,7 +643,9 @@ def r2_10(ctx, rc):
         bfacts = s if bfacts is None else {
             k: v for k, v in bfacts.items() if k in s}
     rb = N['rollback']
-    sgr = ctx.E.super(rb, lambda g: False)
+    sgr = ctx.helpers_graph(rb, stop=(N['remover'].qualname,
+                                      N['dir_remover'].qualname,
+                                      N['create_dirs'].qualname))
     rsites = [x for x in sgr.nodes if Q.is_call(x, N['remover'].qualname)]
     if not rsites:
         raise AnalysisError('file remover not found in rollback')
@@ -634,6 +659,9 @@ def r2_10(ctx, rc):
 
     def classify(f):
         pol, atom, func, cn = f
+        if isinstance(atom, ast.Name) and atom.id in \
+                ctx.E.cfgs.get(func).flag_names:
+            return 'REUSED', pol      # a recorded branch, tracked as a flag
         a = ctx.H.subst(atom, func, cn)
         if isinstance(a, ast.Call):
             names = [g.qualname if isinstance(g, Func) else g
